@@ -2,6 +2,7 @@ package main
 
 import (
 	"fmt"
+	"go/token"
 	"strings"
 
 	"golang.org/x/tools/go/ssa"
@@ -33,13 +34,15 @@ func checkFoldZero(c *Ctx, rule string) {
 	s := newSumm(p, 0)
 	// a pure helper computing the score (0 when folded, the published strength otherwise) is read
 	// where it is used
+	// ... and so is a helper that prepares the settlement (it then holds the loops)
 	s.HelperInline = func(f *ssa.Function) bool {
 		fi := ix.Info[f]
-		return privateHelper(settle, f) && len(findLoops(f)) == 0 && fi != nil && len(fi.Writes) == 0
+		return privateHelper(settle, f) && fi != nil && (len(findLoops(f)) > 0 || len(fi.Writes) == 0)
 	}
 	ok := false
 	var bad []string
-	for _, l := range s.loops(settle) {
+	for _, hl := range loopsWithHelpers(s, settle) {
+		l := hl.L
 		ri := analyseRange(l)
 		if !loadsField(ri.Coll, "pokerface.GameState.Players") {
 			continue
@@ -47,7 +50,7 @@ func checkFoldZero(c *Ctx, rule string) {
 		if !ri.Full || len(l.Exits) != 1 {
 			bad = append(bad, "the loop over the players can stop early")
 		}
-		body, _ := s.LoopBody(settle, l)
+		body, _ := s.LoopBody(hl.Fn, l)
 		ok = len(body) > 0
 		nFold, nLive := 0, 0
 		for _, ps := range body {
@@ -100,7 +103,17 @@ func checkFoldZero(c *Ctx, rule string) {
 func (c *Ctx) fullRangeCalls(fn *ssa.Function, collField string, callees ...string) (bool, string, []*PathSum) {
 	s := newSumm(c.P, 0)
 	s.EngineAliases = false
+	// the loop may live in a package-private helper (only when the function has none itself)
+	hls := []hostLoop{}
 	for _, l := range s.loops(fn) {
+		hls = append(hls, hostLoop{fn, l})
+	}
+	if len(hls) == 0 {
+		withPrivateHelpers(s, fn)
+		hls = loopsWithHelpers(s, fn)
+	}
+	for _, hl := range hls {
+		l := hl.L
 		ri := analyseRange(l)
 		if collField != "" && !loadsField(ri.Coll, collField) {
 			if prm, ok := ri.Coll.(*ssa.Parameter); !ok || "param:"+prm.Name() != collField {
@@ -110,7 +123,7 @@ func (c *Ctx) fullRangeCalls(fn *ssa.Function, collField string, callees ...stri
 		if ri.Kind != "slice" || !ri.Full || len(l.Exits) != 1 {
 			return false, "the loop over " + collField + " is not a full range without early exit", nil
 		}
-		body, _ := s.LoopBody(fn, l)
+		body, _ := s.LoopBody(hl.Fn, l)
 		for _, ps := range body {
 			if ps.End != "continue" {
 				return false, "the loop can stop early (" + ps.End + ")", nil
@@ -171,6 +184,23 @@ func runC02(c *Ctx) {
 								okHit = true
 							}
 						}
+					}
+				}
+			}
+			if !okHit {
+				// or after a membership predicate over the level's contributors said yes
+				for _, e := range ps.Events {
+					if e.Kind != "call" || e.Fn == nil || len(e.Args) < 2 || e.Args[len(e.Args)-1].String() != "param:"+lu.Params[1].Name() {
+						continue
+					}
+					if v, _ := membershipOfField(e.Fn, "settlement.LevelInfo.Contributors", 0); v != "yes" {
+						continue
+					}
+					call := e.Callee + "("
+					if hasCond(ps, func(v *Val) bool {
+						return v.K == KAtom && v.At.Op == "b" && !v.Neg && strings.HasPrefix(v.At.L, call)
+					}) {
+						okHit = true
 					}
 				}
 			}
@@ -266,6 +296,13 @@ func runC02(c *Ctx) {
 				}
 			}
 		}
+		if !ok && f.name == "AddPot" {
+			// second form: the level records are built in place, one fresh record per element with
+			// the element's own four fields
+			if w2 := literalForward(c, fn, f.coll, "settlement.LevelInfo.", []string{"Level", "Wager", "Total", "Contributors"}); w2 == "" {
+				ok = true
+			}
+		}
 		c.check(ok, "complete-forwarding", fnKey(fn), p.FnPos(fn), "visits every element and forwards it completely", "incomplete forwarding: "+why)
 	}
 	if settle != nil {
@@ -279,7 +316,7 @@ func runC02(c *Ctx) {
 		}
 		c.check(ok, "complete-forwarding", fnKey(settle)+"#pots", p.FnPos(settle), "every published pot is forwarded with its own total and levels", "incomplete forwarding of the pots: "+why)
 		// Calculate() is called after both loops and before the result is stored
-		s := newSumm(p, 0)
+		s := withPrivateHelpers(newSumm(p, 0), settle)
 		paths, _ := s.Function(settle)
 		okOrder := len(paths) > 0
 		for _, ps := range paths {
@@ -326,6 +363,41 @@ func runC02(c *Ctx) {
 						ok = false
 					}
 				}
+			}
+		}
+		if !(ok && inner == 1) {
+			// second form: the per-level step written out - inside the loop over the levels a scan
+			// of that level's contributors that enters (score, player) into the level's ranking
+			// exactly on a match with the player
+			full, scans := 0, 0
+			okScan := true
+			for _, l := range loops {
+				ri := analyseRange(l)
+				if ri.Full && len(l.Exits) == 1 {
+					full++
+					continue
+				}
+				if !loadsField(ri.Coll, "settlement.LevelInfo.Contributors") {
+					okScan = false
+					continue
+				}
+				scans++
+				body, _ := s.LoopBody(ru, l)
+				for _, bp := range body {
+					adds := bp.Calls(".AddContributor")
+					hit := hasCond(bp, func(v *Val) bool {
+						return v.K == KAtom && v.At.Op == "eq" && !v.Neg && strings.Contains(v.At.A.String(), "param:"+ru.Params[1].Name()) && strings.Contains(v.At.A.String(), ".Contributors[")
+					})
+					if (len(adds) == 1) != hit {
+						okScan = false
+					}
+					if len(adds) == 1 && (adds[0].Args[1].String() != "param:"+ru.Params[2].Name() || adds[0].Args[2].String() != "param:"+ru.Params[1].Name()) {
+						okScan = false
+					}
+				}
+			}
+			if full == 2 && scans == 1 && okScan && len(loops) == 3 {
+				ok, inner = true, 1
 			}
 		}
 		c.check(ok && inner == 1, "complete-forwarding", fnKey(ru), p.FnPos(ru), "the score is forwarded to every level of every pot", "a score does not reach every level")
@@ -383,6 +455,26 @@ func runC02(c *Ctx) {
 		var why string
 		for _, l := range s.loops(gl) {
 			ri := analyseRange(l)
+			// third form: an index loop from 1 to len(groups)
+			if !ri.Full && len(l.Exits) == 1 && sel == "first" {
+				if from, coll := indexLoopFrom(l); from == 1 && coll != nil && loadsField(coll, "settlement.Rank.groups") {
+					body, _ := s.LoopBody(gl, l)
+					lb = len(body) > 0
+					for _, bp := range body {
+						g := false
+						for k, v := range bp.Store {
+							if strings.HasPrefix(k, "backedge:") && v.Op == "append" && strings.Contains(v.String(), ".Contributors") && strings.Contains(v.String(), "[iter:") {
+								g = true
+							}
+						}
+						if bp.End != "continue" || !g {
+							lb = false
+							why = "not every remaining group is taken"
+						}
+					}
+					continue
+				}
+			}
 			if !ri.Full || len(l.Exits) != 1 {
 				continue
 			}
@@ -608,6 +700,20 @@ func runLevelOwnership(c *Ctx) {
 								}
 							}
 						}
+						// a local list allocated in this very iteration, filled by a pass, then stored
+						if !ok {
+							if st, isSt := e.Instr.(*ssa.Store); isSt {
+								var inner *Loop
+								for _, l := range findLoops(w) {
+									if l.Blocks[st.Block()] && (inner == nil || len(l.Blocks) < len(inner.Blocks)) {
+										inner = l
+									}
+								}
+								if inner != nil && freshWithinLoop(st.Val, inner, map[ssa.Value]bool{}, 0) {
+									ok = true
+								}
+							}
+						}
 						if !ok {
 							bad = append(bad, fmt.Sprintf("%s := %s at %s: built on a slice owned by somebody else", e.Loc, v, e.Pos))
 						}
@@ -617,7 +723,7 @@ func runLevelOwnership(c *Ctx) {
 			c.check(len(bad) == 0, "level-ownership", fnKey(w)+"#"+key, p.FnPos(w), "contributor lists are fresh or extended in place by their owner", "two levels can share one backing array", uniq(bad, 3)...)
 		}
 	}
-	c.floor("level-ownership", "stores to contributor lists", n, 3)
+	c.floor("level-ownership", "stores to contributor lists", n, 2)
 }
 
 func boolCombos(names []string) []map[string]bool {
@@ -641,8 +747,9 @@ func boolCombos(names []string) []map[string]bool {
 
 // fullRangeCallsAliased is fullRangeCalls with the engine alias normalisation on.
 func (c *Ctx) fullRangeCallsAliased(fn *ssa.Function, collField string, callees ...string) (bool, string, []*PathSum) {
-	s := newSumm(c.P, 0)
-	for _, l := range s.loops(fn) {
+	s := withPrivateHelpers(newSumm(c.P, 0), fn)
+	for _, hl := range loopsWithHelpers(s, fn) {
+		l := hl.L
 		ri := analyseRange(l)
 		if !loadsField(ri.Coll, collField) {
 			continue
@@ -650,7 +757,7 @@ func (c *Ctx) fullRangeCallsAliased(fn *ssa.Function, collField string, callees 
 		if ri.Kind != "slice" || !ri.Full || len(l.Exits) != 1 {
 			return false, "the loop over " + collField + " is not a full range without early exit", nil
 		}
-		body, _ := s.LoopBody(fn, l)
+		body, _ := s.LoopBody(hl.Fn, l)
 		for _, ps := range body {
 			if ps.End != "continue" {
 				return false, "the loop can stop early (" + ps.End + ")", nil
@@ -739,4 +846,124 @@ func checkRankGrouping(c *Ctx) {
 		}
 	}
 	c.check(len(bad) == 0, rule, fnKey(adder), p.FnPos(adder), "a score joins the group found by a full scan for an equal score, else a new group is made", "players with equal scores can end up in different groups", uniq(bad, 3)...)
+}
+
+// indexLoopFrom: for a counting loop `for i := K; i < len(coll); i++` the constant K and the
+// collection; (-1, nil) otherwise.
+func indexLoopFrom(l *Loop) (int64, ssa.Value) {
+	iff, ok := l.Header.Instrs[len(l.Header.Instrs)-1].(*ssa.If)
+	if !ok {
+		return -1, nil
+	}
+	bo, ok := iff.Cond.(*ssa.BinOp)
+	if !ok || bo.Op != token.LSS {
+		return -1, nil
+	}
+	ph, ok := bo.X.(*ssa.Phi)
+	if !ok || ph.Block() != l.Header {
+		return -1, nil
+	}
+	init, step := phiInitStep(l, ph)
+	if init == nil || step == nil || !isPlusOne(step, ph) {
+		return -1, nil
+	}
+	k, ok := constInt(init)
+	if !ok {
+		return -1, nil
+	}
+	call, ok := bo.Y.(*ssa.Call)
+	if !ok {
+		return -1, nil
+	}
+	if bi, ok := call.Call.Value.(*ssa.Builtin); !ok || bi.Name() != "len" {
+		return -1, nil
+	}
+	return k, call.Call.Args[0]
+}
+
+// freshWithinLoop: every root of the slice value v (through merges and appends onto itself) is a
+// slice made inside loop l - a new one per iteration - and nothing else.
+func freshWithinLoop(v ssa.Value, l *Loop, seen map[ssa.Value]bool, depth int) bool {
+	if seen[v] {
+		return true
+	}
+	if depth > 8 {
+		return false
+	}
+	seen[v] = true
+	switch x := v.(type) {
+	case *ssa.MakeSlice:
+		return l.Blocks[x.Block()]
+	case *ssa.Phi:
+		for _, e := range x.Edges {
+			if !freshWithinLoop(e, l, seen, depth+1) {
+				return false
+			}
+		}
+		return len(x.Edges) > 0
+	case *ssa.Call:
+		if b, ok := x.Call.Value.(*ssa.Builtin); ok && b.Name() == "append" {
+			return freshWithinLoop(x.Call.Args[0], l, seen, depth+1)
+		}
+	case *ssa.Slice:
+		if al, ok := x.X.(*ssa.Alloc); ok {
+			return l.Blocks[al.Block()]
+		}
+	}
+	return false
+}
+
+// literalForward: fn has a full range loop over coll (a parameter) whose every turn stores, into one
+// fresh record, each of the fields from the same-named field of the loop's element, and appends
+// the record. Returns "" when it has, the reason otherwise.
+func literalForward(c *Ctx, fn *ssa.Function, coll string, keyPrefix string, fields []string) string {
+	s := newSumm(c.P, 0)
+	s.EngineAliases = false
+	for _, l := range s.loops(fn) {
+		ri := analyseRange(l)
+		prm, ok := ri.Coll.(*ssa.Parameter)
+		if !ok || "param:"+prm.Name() != coll {
+			continue
+		}
+		if ri.Kind != "slice" || !ri.Full || len(l.Exits) != 1 {
+			return "the loop over " + coll + " is not a full range"
+		}
+		body, _ := s.LoopBody(fn, l)
+		if len(body) == 0 {
+			return "empty body"
+		}
+		for _, bp := range body {
+			if bp.End != "continue" {
+				return "the loop can stop early"
+			}
+			base := ""
+			for _, f := range fields {
+				found := false
+				for _, e := range bp.Events {
+					if e.Kind == "store" && e.FKey == keyPrefix+f && e.Fresh {
+						b, fl := splitLoc(e.Val.String())
+						if fl != f || !strings.Contains(b, "[iter:") || (base != "" && b != base) {
+							return "field " + f + " of the record is " + e.Val.String()
+						}
+						base = b
+						found = true
+					}
+				}
+				if !found {
+					return "field " + f + " is not carried over"
+				}
+			}
+			grows := false
+			for k, v := range bp.Store {
+				if strings.HasPrefix(k, "backedge:") && v.Op == "append" {
+					grows = true
+				}
+			}
+			if !grows {
+				return "the record is not appended"
+			}
+		}
+		return ""
+	}
+	return "no loop over " + coll
 }
